@@ -52,6 +52,9 @@ ASSUMPTIONS = [
     'same device); an undefined opcode without command bit by silence or one Error Response naming it',
     'a PDU with a request opcode that is too short / has an invalid field length is still a request: '
     'exactly one PDU (an Error Response) is expected',
+    'enhanced bearers: client PDUs are cut to the server channel MTU and are never empty (one PDU = one SDU)',
+    'after a count violation on a bearer the rest of that bearer history is not judged (state unknown)',
+    'the process-wide UUID registry (bumble.core.UUID.UUIDS) is restored after every case',
 ]
 SHRINK_KEYS = ('ops', 'services')
 
@@ -771,6 +774,7 @@ async def _drive(loop, case, S):
             ch.sink = lambda pdu, b=b: rx(b, pdu)
             senders.append(ch.write)
             mtu0.append(min(client_l2, server_l2))
+        S['client_l2'] = client_l2
             limits.append({'sdu': server_l2, 'mtu': min(client_l2, server_l2)})
     conn.encryption = 1 if case['sec'][0] else 0
     conn.authenticated = bool(case['sec'][1])
@@ -1033,6 +1037,16 @@ def analyse(ctx, case, S, loop) -> None:
                         labels.add('undefined_opcode:error_response')
                 if k != 'request':
                     nontrivial = True
+            full = [p for p in rxs[b] if eatt and len(p) >= S['client_l2']]
+            if rest and full and rxs[b].index(full[0]) < len(rxs[b]) - 1:
+                # enhanced bearer: a PDU longer than the client's channel MTU is cut into several SDUs by L2CAP, the
+                # client then sees a full-sized SDU followed by the remaining bytes as "PDUs" of their own
+                p = full[0]
+                sizes = [len(q) for q in rxs[b][rxs[b].index(p):]]
+                fail(f'oversize/{opname(p[0])}',
+                     f'{opname(p[0])} longer than the channel MTU {S["client_l2"]}: it arrived as SDUs of {sizes} bytes', last_op)
+                dead[b] = True
+                rest = []
             for p in rest:
                 kinds = sorted({klass(q[0]) for q in sent}) or ['nothing']
                 what = opname(p[0]) + (f'_for_{opname(p[1])}' if p[0] == 0x01 and len(p) >= 2 else '')
@@ -1090,9 +1104,9 @@ def run(ctx) -> None:
     ctx.extra['sum_opcodes_swept'] = covered
     ctx.extra['defined_classes'] = len(att.ATT_PDU.pdu_classes)
     # 2. generated databases and operation sequences, fixed bearer
-    ctx.hyp('fixed', lambda c: run_case(ctx, c), fixed_case(), max_examples=ctx.n(850, 90000))
+    ctx.hyp('fixed', lambda c: run_case(ctx, c), fixed_case(), max_examples=ctx.n(850, 72000))
     # 3. enhanced bearers
-    ctx.hyp('eatt', lambda c: run_case(ctx, c), eatt_case(), max_examples=ctx.n(320, 30000))
+    ctx.hyp('eatt', lambda c: run_case(ctx, c), eatt_case(), max_examples=ctx.n(320, 24000))
     for label, n in (
         ('tx:request', 100), ('tx:command', 10), ('tx:confirmation', 10), ('tx:wrong_way', 10), ('tx:undefined', 50),
         ('malformed_request', 20), ('handle:zero', 10), ('handle:past_end', 10), ('handle:ffff', 10),
